@@ -323,6 +323,42 @@ example : shutdownWrite {} (some (.conn (.internal 3))) =
 example : shutdownWrite {} (some (.conn .timeout)) = ({ handled := some .timeout, closes := [] }, some .timeout) := by
   decide
 
+/-- **The peer's STOP_SENDING on the endpoint's control stream during the setup** (engine `ctl`, `x<sid>`
+    on the own streams; reading R-04c).  The `join3` of `send_control_stream_headers` ends only when all
+    three writes have ended; then a control-stream write that ended with a stream error — `poll_ready`
+    answering `StreamTerminated` when it met the stopped stream — makes `build` fail with
+    H3_CLOSED_CRITICAL_STREAM, `close(0x0104)` once, whatever happened on the QPACK streams; while one
+    of the QPACK writes is still pending `build` is pending and nothing is closed; and an error on a
+    QPACK stream alone is dropped (`let _ = stream::write(..)`): `build` returns the connection,
+    nothing is closed. -/
+theorem C04_stopped_control_stream_fails_setup {T : Type} (t : T) (c : Nat) (wd we : WSt) (p : Bool) :
+    (wd.isDone = true → we.isDone = true →
+      (joinHeaders t {} (.done (some (.terminated c))) wd we p).res = some (some (.localApp 0x0104 0)) ∧
+      (joinHeaders t {} (.done (some (.terminated c))) wd we p).st.drv.closes = [0x0104]) ∧
+    ((wd.isDone && we.isDone) = false →
+      (joinHeaders t {} (.done (some (.terminated c))) wd we p).res = none ∧
+      (joinHeaders t {} (.done (some (.terminated c))) wd we p).st.drv.closes = []) ∧
+    (∀ r1 r2, (joinHeaders t {} (.done none) (.done r1) (.done r2) p).res = some none ∧
+      (joinHeaders t {} (.done none) (.done r1) (.done r2) p).st.drv.closes = []) := by
+  refine ⟨fun h1 h2 => ?_, fun h => ?_, fun r1 r2 => ?_⟩
+  · simp [joinHeaders, h1, h2, finishHeaders, raise, ctlStreamErr, convert, closeCode, closeOf,
+      CODE_H3_CLOSED_CRITICAL_STREAM]
+  · simp [joinHeaders, h]
+  · simp [joinHeaders, WSt.isDone, finishHeaders]
+
+-- non-vacuity, the whole `build` future against a scripted transport: three streams, the control
+-- stream's `send_data` ok, its `poll_ready` meets STOP_SENDING(7), the QPACK headers go out: Err(0x104),
+-- one close; the same with the decoder's `poll_ready` pending first: `build` waits for it
+example : (buildRun scriptTr 3 [.ok, .ok, .ok, .ok, .err (.terminated 7), .ok, .ok, .ok, .ok] {}).2 =
+    ({ phase := .finished, drv := { handled := some (.localApp 0x0104 0), closes := [0x0104] } },
+     some (some (.localApp 0x0104 0))) := by decide
+example : (buildPoll scriptTr [.ok, .ok, .ok, .ok, .err (.terminated 7), .ok, .pending, .ok, .ok] {}).res = none ∧
+    (buildPoll scriptTr [.ok, .ok, .ok, .ok, .err (.terminated 7), .ok, .pending, .ok, .ok] {}).st.drv.closes = [] := by
+  decide
+-- STOP_SENDING on the two QPACK streams only: the connection is built
+example : (buildRun scriptTr 3 [.ok, .ok, .ok, .ok, .ok, .ok, .err (.terminated 7), .ok, .err (.terminated 9)] {}).2.2 =
+    some none := by decide
+
 /-- **A client that is handed a server-initiated bidirectional stream** (RFC 9114 §6.1): when the
     control loop of `poll_close` has nothing more to do and `poll_accept_bi` yields a stream, the
     connection error is H3_STREAM_CREATION_ERROR, `close(0x0103)` once; if the connection had
